@@ -93,8 +93,15 @@ WantRaw(drv, outcome) ==
 
 CallerPairing(drv, wire, cl) ==
     LET pos == Positions(wire, cl.name)
-        \* wire entries of the caller that are not ENABLE DEVICE TYPE prefixes, in order
-        nopfx == SelectSeq(pos, LAMBDA k : ~(wire[k].bits = 16 /\ wire[k].frame \div 256 = 193))
+        \* wire entries of the caller that are not ENABLE DEVICE TYPE prefixes, in order.  A prefix is an ENABLE DEVICE
+        \* TYPE frame directly followed (among the caller's entries) by a command of the caller that needs that device type;
+        \* an ENABLE DEVICE TYPE the application sent itself is a command like any other
+        IsEDT(k) == wire[k].bits = 16 /\ wire[k].frame \div 256 = 193
+        IsPfx(j) == /\ IsEDT(pos[j]) /\ j < Len(pos)
+                    /\ \E u \in 1..Len(cl.unit) : /\ cl.unit[u].dt # 0 /\ cl.unit[u].dt = wire[pos[j]].frame % 256
+                                                   /\ cl.unit[u].frame = wire[pos[j + 1]].frame /\ cl.unit[u].bits = wire[pos[j + 1]].bits
+        keepix == SelectSeq([j \in 1..Len(pos) |-> j], LAMBDA j : ~IsPfx(j))
+        nopfx == [j \in 1..Len(keepix) |-> pos[keepix[j]]]
         \* a caller that asked for transparent retry may put a command on the wire again after a reconnection:
         \* its answer is the one to the last attempt
         cmdpos == IF cl.exceptions = 1 THEN nopfx
